@@ -134,6 +134,15 @@ pub fn c15(case_seed: u64, acc: &mut Acc) {
         strip(&mut case.program.items, &mut r);
     }
     acc.cases += 1;
+    // pre-flight with the reference (draws faked at their maximum): programs that would not
+    // finish within the budgets are not run at all
+    {
+        let pre = RefOpts { fake_draws: true, max_rows: 220, max_steps: 4000, ..Default::default() };
+        if let RefOutcome::Inconclusive(why) = refint::run(&case.program, &case.signals, &case.script, pre) {
+            acc.inconclusive(&format!("reference pre-flight: {why}"));
+            return;
+        }
+    }
     let pr = pp::print(&case.program, &case.layout_opts);
     let h = case_hash(&case, &pr);
     acc.distinct.insert(h);
